@@ -178,17 +178,21 @@ func vfH_C06_genuine_passes() {
 // C05 at session level: arbitrary bytes (any configuration, before and after the integrity
 // gate) into the listener and the dialled session: no panic on any path.
 func vfH_C05_session_bytes() {
-	ck := vfPickCipher()
+	var ck int
 	if vfTier() == 0 {
 		// quick: no cipher and the CFB-class path; what AEAD lets through is C06's subject
 		ck = []int{vfCipherNil, vfCipherNone}[vfPick("cipher", 0, 1)]
+	} else {
+		ck = vfPick("cipher", 0, 3)
 	}
 	d, p := vfPickFEC()
 	pr := vfConnect(ck, d, p, 1)
 	vfReach("connected")
-	n := vfDgLen()
+	var n int
 	if vfTier() == 0 {
 		n = pr.client.headerSize - fecHeaderSizePlus2*min(d, 1) + []int{0, 5, 11, 12, 13, 23, 24, 32, 33}[vfPick("dg_n", 0, 8)]
+	} else {
+		n = vfPick("dg_n", 0, 64)
 	}
 	dg := vfBytes("dg", n)
 	if vfTier() == 0 {
